@@ -375,7 +375,7 @@ where
 impl<'a, T, V, Idx> MaxUncertainty<Idx, V, T> for Simplex<T, V>
 where
     T: Container<Idx, Output = V> + FromFn<Idx, V> + IndexMut<Idx>,
-    V: Float + AddAssign + DivAssign + UlpsEq,
+    V: Float + AddAssign + DivAssign + UlpsEq + Sum,
     Idx: Copy,
 {
     type Output = Simplex<T, V>;
@@ -403,7 +403,8 @@ where
         let p = self.projection(a);
         let u_max = self.max_uncertainty(a);
         let b_max = T::from_fn(|i| p[i] - a[i] * u_max);
-        Simplex::new_unchecked(b_max, u_max)
+        // sum(b_max) + u_max = 1 - u_max * (sum(a) - 1): renormalise like every other operator that builds b = p - a*u
+        Simplex::normalized(b_max, u_max)
     }
 }
 
